@@ -70,6 +70,14 @@ func TestC07(t *testing.T) {
 		dur := den * q
 		start := nowS - num*q
 		end := start + dur
+		cliff := rapid.IntRange(0, 7).Draw(t, "cliff") == 0
+		if cliff {
+			// an account as a pool send without restart creates it: start == end == a lock end in the future
+			// (everything stays locked until then)
+			dur = []int64{2, 3600, 30 * 86400, 365 * 86400}[rapid.IntRange(0, 3).Draw(t, "cliffIn")]
+			start = nowS + dur
+			end = start
+		}
 		nd := rapid.IntRange(1, 3).Draw(t, "nDenoms")
 		ov := sdk.NewCoins()
 		for i := 0; i < nd; i++ {
@@ -307,6 +315,9 @@ func TestC07(t *testing.T) {
 		}
 		if num == -1 {
 			classes["start_in_future"] = true
+		}
+		if cliff {
+			classes["sender_with_start_equal_end"] = true
 		}
 		if nd > 1 {
 			classes["multi_denom"] = true
